@@ -136,6 +136,25 @@ def check_rv(case, stats):
         max_rows = max(max_rows, len(rows))
     if not five and not dc:
         unaligned_rows = any(e.store and (e.store[1] < 4 or e.store[0] % 4) for e in ref.trace)
+    # the tables show the CURRENT state also after the simulation has been loaded again: first a program without data
+    # (the memory table is empty), then one with a data segment (exactly its words)
+    for text, want in (("nop\n", {}), (".data\nq: .word 0x01020304, 7\nr: .byte 0x80\n.text\nnop\n", None)):
+        try:
+            sim.load_program(text)
+            rows = sim.get_data_memory_entries()
+        except Exception as ex:
+            raise Violation("reload-raises", case, f"load_program({text!r}) on the used simulation: {type(ex).__name__}: {ex}")
+        backing = rvdrive.backing_bytes(sim)
+        words = {a & ~3 for a in backing}
+        shown = {r[0][0]: r[1] for r in rows}
+        if set(shown) != words:
+            raise Violation("memory-table-rows", case, f"after re-loading {text!r}: table lists {sorted(hex(a) for a in shown)[:6]}, memory holds {sorted(hex(a) for a in words)[:6]}")
+        for a, rep in shown.items():
+            v = sum(backing.get(a + i, 0) << (8 * i) for i in range(4))
+            p = fmt.problem(rep, v, 32)
+            if p:
+                raise Violation("memory-table-value", case, f"after re-loading {text!r}: word {a:#x} (true value {v:#x}): {p}")
+        _check_reg_table(case, sim, "after a reload")
     tags = {"rv", "cache" if dc else "nocache", "mode:" + case.get("mode", "single")}
     stats.count(case, max_rows >= 2 and (unaligned_rows or bool(dc) or five), tags, sample_tag="rv-table")
 
